@@ -432,7 +432,7 @@ def r8_single_body(report, repo):
 
 
 def run(report, repo):
-  from sa.rules import c01, c02  # pylint: disable=g-import-not-at-top
+  from sa.rules import c01, c02, c03  # pylint: disable=g-import-not-at-top
   c02.r3_sequences(report, repo, rule='C04-R1', only_abortable=True)
   r2_thread_publication(report, repo)
   r3_abort_ladder(report, repo)
@@ -441,3 +441,5 @@ def run(report, repo):
   r6_sigint_lock(report, repo)
   r7_lock_order(report, repo)
   r8_single_body(report, repo)
+  # teardown still runs after a single abort: stop/reset/release hand-shake
+  c03.r4_stop_phase_executor(report, repo, rule='C04-R9')
